@@ -15,6 +15,11 @@ open JinjaV.Gen.Sandbox
 theorem mutators_blocked :
     ∀ p ∈ builtinMutators, Immutable_is_safe_attribute (objOf p.1) p.2 = false := by decide +kernel
 
+/-- the same methods looked up on the class object itself (`dict.clear(d)`: `dict` is a default global) are refused too
+    (full strength since /repo fix "the immutable sandbox must refuse mutating methods looked up on the class") -/
+theorem mutators_blocked_on_class :
+    ∀ p ∈ builtinMutators, Immutable_is_safe_attribute (classObjOf p.1) p.2 = false := by decide +kernel
+
 /-- the decision function of the immutable sandbox only admits what the plain sandbox
     admits and what does not modify a known mutable (for *every* object and name) -/
 theorem immutable_attr_decision (o : Obj) (attr : String)
